@@ -228,6 +228,60 @@ class Item:
             n += 1
         return self
 
+    def rw_continue_else(self, expect=None):
+        """R11: `let X = if let PAT = E { A } else { continue; }; REST` (REST = the remainder of the enclosing loop body)
+        becomes `if let PAT = E { let X = A; REST }` — the same control flow without `continue`, which Verus does not
+        support inside `for` loops.  Applies only when the `else` block is exactly `continue;` and the statement sits
+        directly in a loop body."""
+        if hasattr(self, '_splices'):
+            raise ExtractError('%s: executable rewrite after ghost splices' % self.name)
+        k = 0
+        while True:
+            t = self.text
+            mask = code_mask(t)
+            hit = None
+            for m in find_code(t, mask, r'\blet\s+(\w+)\s*=\s*if\s+let\s+', regex=True):
+                # then-block
+                j = m.end()
+                while j < len(t) and not (mask[j] and t[j] == '{'):
+                    j += 1
+                tb_open = j
+                tb_close = match_close(t, mask, tb_open)
+                me = re.match(r'\s*else\s*\{\s*continue\s*;\s*\}\s*;', t[tb_close + 1:])
+                if not me:
+                    continue
+                stmt_end = tb_close + 1 + me.end()
+                # enclosing block: nearest '{' before the statement whose close lies after it
+                i = m.start() - 1
+                enc_open = None
+                while i >= 0:
+                    if mask[i] and t[i] == '{':
+                        c = match_close(t, mask, i)
+                        if c > stmt_end:
+                            enc_open = i
+                            break
+                    i -= 1
+                if enc_open is None:
+                    continue
+                enc_close = match_close(t, mask, enc_open)
+                hit = (m, tb_open, tb_close, stmt_end, enc_close)
+                break
+            if hit is None:
+                break
+            m, tb_open, tb_close, stmt_end, enc_close = hit
+            x = m.group(1)
+            head = t[m.start():tb_open]                       # `let X = if let PAT = E `
+            cond = re.sub(r'^let\s+\w+\s*=\s*', '', head)      # `if let PAT = E `
+            a = t[tb_open + 1:tb_close].strip()
+            rest = t[stmt_end:enc_close]
+            self.text = t[:m.start()] + cond + '{\n            let ' + x + ' = ' + a + ';' + rest + '}\n        ' + t[enc_close:]
+            k += 1
+        if expect is not None and k != expect:
+            raise ExtractError('%s: rewrite R11 (continue in else) applied %d times, expected %d' % (self.name, k, expect))
+        if k:
+            self.log.append(('R11', '`let X = if let P = E { A } else { continue; }; REST` -> `if let P = E { let X = A; REST }`  x%d' % k))
+        return self
+
     def stub_body(self, where, fname=None):
         """Contract-only copy of a function: the body is replaced by `unimplemented!()` and the function marked
         external_body; `where` names the unit in which the same text is verified against the same contract."""
